@@ -284,8 +284,36 @@ def loader_case(c):
     return out
 
 
+def draw_dtypes(default):
+    """dtype of the uniform draws behind the Poisson masks when the process-wide default dtype is `default`
+    (torch.set_default_dtype(torch.bfloat16) is usual in LLM code): a draw on a 2^-8 grid includes every index with probability
+    ceil(q * 256) / 256, not q"""
+    import torch.distributed as dist
+    seen = []
+    orig = torch.rand
+    keep = torch.get_default_dtype()
+
+    def spy(*a, **k):
+        t = orig(*a, **k)
+        seen.append(str(t.dtype).replace('torch.', ''))
+        return t
+    og, ow = dist.get_rank, dist.get_world_size
+    torch.set_default_dtype(getattr(torch, default))
+    torch.rand = spy
+    try:
+        list(UniformWithReplacementSampler(num_samples=10, sample_rate=0.3, steps=2))
+        dist.get_world_size = lambda: 2
+        dist.get_rank = lambda: 1
+        list(DistributedUniformWithReplacementSampler(total_size=10, sample_rate=0.3, shuffle=False, steps=2))
+    finally:
+        torch.rand = orig
+        torch.set_default_dtype(keep)
+        dist.get_rank, dist.get_world_size = og, ow
+    return {'default': default, 'draws': seen}
+
+
 if __name__ == '__main__':
     p = read_payload()
-    emit({'uniform': [uniform_case(c) for c in p.get('uniform', [])], 'dist': [dist_case(c) for c in p.get('dist', [])],
+    emit({'dtypes': [draw_dtypes(d) for d in p.get('dtypes', [])],'uniform': [uniform_case(c) for c in p.get('uniform', [])], 'dist': [dist_case(c) for c in p.get('dist', [])],
           'loader': [loader_case(c) for c in p.get('loader', [])], 'struct': [struct_case(c) for c in p.get('struct', [])],
           'tree': [tree_case(c) for c in p.get('tree', [])]})
